@@ -27,6 +27,11 @@ import (
 type replayInput struct {
 	Source string `json:"source,omitempty"`
 	Insts  string `json:"insts,omitempty"`
+	// script stream (script.go): source modules, and what the harness knows about the program by construction
+	Modules      map[string]string `json:"modules,omitempty"`
+	Expect       string            `json:"expect,omitempty"`        // name=canonical value;... of the optimized Script run
+	ExpectErr    string            `json:"expect_err,omitempty"`    // substring of the run-time error
+	ExpectFrames []string          `json:"expect_frames,omitempty"` // file:line:col per frame, innermost first ("" = any)
 }
 
 var (
@@ -158,6 +163,8 @@ func checkProgram(src string) {
 			Oracle: "the optimized run dispatches the same opcode sequence as the unoptimized run"})
 	}
 	res.Sample(map[string]interface{}{"stream": "twin", "source": src, "outcome": clip(ru.String(), 200)}, 3)
+	// what the user runs went through RemoveDuplicates as well (script.go)
+	checkDedup(src, o, u, ru, len(fo), removedAny)
 	// sweep: force the allocation-limit error at the k-th tracked allocation, for every k the run performs
 	// (bounded): both twins must report it at the same position — this probes the source map at every
 	// allocating instruction on the executed path, not only where the program happens to fail.
@@ -588,6 +595,8 @@ func main() {
 	res = lib.NewResult("C03", f)
 	thorough = f.Thorough()
 	sweepBudget = f.Scale(120, 8000)
+	dedupSweepBudget = f.Scale(40, 8000)
+	scriptSweepBudget = f.Scale(80, 8000)
 	var err error
 	drv, err = lib.StartDriver(f.Driver)
 	if err != nil {
@@ -639,6 +648,8 @@ func main() {
 	for i := 0; i < nt; i++ {
 		checkProgram(deadCodeProgram(rng.Fork()))
 	}
+	// functions with identical live code that differ in dead code only, through RemoveDuplicates / the Script API
+	runDupFamilies(rng.Fork(), f.Scale(150, 12000))
 	skeletons(f.Scale(4, 6))
 	res.Extra = map[string]interface{}{"skeleton_max_len": f.Scale(4, 6)}
 	res.Write(f.Out)
@@ -662,7 +673,12 @@ func replay(path string) {
 	}
 	for _, v := range rp.Violations {
 		if v.Input.Source != "" {
-			checkProgram(v.Input.Source)
+			if len(v.Input.Modules) == 0 {
+				checkProgram(v.Input.Source)
+			}
+			in := v.Input
+			in.Insts = ""
+			checkScript(in)
 		}
 	}
 	for _, o := range rp.Obligations {
